@@ -187,7 +187,9 @@ def obligations_lookup(rep, repo, m):
                 t = cur.test
                 if isinstance(t, ast.Compare) and len(t.ops) == 1 and isinstance(t.ops[0], ast.IsNot) and \
                         isinstance(t.comparators[0], ast.Constant) and t.comparators[0].value is None and \
-                        norm(t.left) in ("degree", "size"):
+                        norm(t.left) in ("degree", "size") and \
+                        any(isinstance(z, ast.Return) for b_ in cur.body for z in ast.walk(b_)):
+                    # (an `x is not None` block that only validates x and returns nothing is not the look-up branch)
                     branches.append((norm(t.left), cur.body, cur))
                 if len(cur.orelse) == 1 and isinstance(cur.orelse[0], ast.If):
                     cur = cur.orelse[0]
